@@ -77,7 +77,9 @@ class DictStorage(QueueStorage):
         return new_attempts
 
     def set_recipients_delivered(self, id, rcpt_indexes):
-        self._remove_delivered_rcpts(self.env_db[id], rcpt_indexes)
+        envelope = self.env_db[id]
+        self._remove_delivered_rcpts(envelope, rcpt_indexes)
+        self.env_db[id] = envelope
         log.update_meta(id, delivered_indexes=rcpt_indexes)
 
     def load(self):
